@@ -4,7 +4,7 @@
    harness/props/c10.py). *)
 From Coq Require Import Lia.
 From Coq Require Import Permutation.
-From Ctg Require Import Base Net Paths BaseFacts PathsFacts PathsRoundtrip PathsOrdered.
+From Ctg Require Import Base Net Paths BaseFacts PathsFacts PathsRoundtrip PathsOrdered PathsEdge.
 From Ctg Require ExecOrderFacts.
 
 (* key fact behind linear <-> ssa: on a strictly increasing id list the real binary search
@@ -164,6 +164,65 @@ Theorem C10_linear_ssa_inverse_checker_sound : forall path N, inverse_ok_b path 
 Proof. exact inverse_ok_b_sound. Qed.
 Print Assumptions C10_linear_ssa_inverse_checker_sound.
 
+(* edge_path_steps_are_carriers.  The independent simulation (spec_run): live tensors are
+   (id, list of original leaves); tensor lv CARRIES index j iff some leaf of lv has j in its
+   input term; processing j collects the live carriers of j -- fewer than two: nothing happens;
+   otherwise they are replaced by one new tensor (fresh id, union of their leaves) and the step
+   (their ids, ascending) is emitted (C10_spec_step_char).
+   Theorem: on every list of DISTINCT indices occurring in the network the model of
+   edge_path_to_ssa does not raise and emits exactly the simulation's steps; on any other list
+   it raises (KeyError in the code) at the first repeated / unknown index, having emitted the
+   steps of the valid prefix.  (The proof also shows that the model's jx_ssas.remove(s) always
+   removes a present element -- invariant r_s2i_live of Proofs/PathsEdge.v.) *)
+Theorem C10_spec_step_char : forall inputs sp j,
+  let car := filter (fun t => carries inputs (snd t) j) (sp_live sp) in
+  (length car < 2 -> spec_step inputs sp j = sp) /\
+  (2 <= length car ->
+     sp_path (spec_step inputs sp j) = sp_path sp ++ [map fst car] /\
+     sp_live (spec_step inputs sp j) =
+       filter (fun t => negb (carries inputs (snd t) j)) (sp_live sp) ++ [(sp_next sp, concat (map snd car))] /\
+     sp_next (spec_step inputs sp j) = S (sp_next sp)).
+Proof. exact spec_step_char. Qed.
+Print Assumptions C10_spec_step_char.
+
+Theorem C10_edge_path_steps_are_carriers : forall inputs ep,
+  NoDup ep -> (forall j, In j ep -> known inputs j = true) ->
+  edge_path_to_ssa ep inputs = (sp_path (spec_run inputs ep), false).
+Proof. exact edge_path_refines. Qed.
+Print Assumptions C10_edge_path_steps_are_carriers.
+
+Theorem C10_edge_path_raises : forall inputs pre j suf,
+  NoDup pre -> (forall i, In i pre -> known inputs i = true) ->
+  (In j pre \/ known inputs j = false) ->
+  edge_path_to_ssa (pre ++ j :: suf) inputs = (sp_path (spec_run inputs pre), true).
+Proof. exact edge_path_raises. Qed.
+Print Assumptions C10_edge_path_raises.
+
+(* the emitted ssa path is valid for EVERY list of indices, and so is its linear image
+   (ssa_to_linear maps valid ssa paths to valid linear paths) *)
+Theorem C10_edge_path_valid_ssa : forall inputs ep,
+  valid_ssa (seq 0 (length inputs)) (length inputs) (fst (edge_path_to_ssa ep inputs)).
+Proof. exact edge_path_valid_ssa. Qed.
+Print Assumptions C10_edge_path_valid_ssa.
+
+Theorem C10_ssa_to_linear_valid : forall spath N, valid_ssa (seq 0 N) N spath -> valid_lin N (ssa_to_linear spath N).
+Proof. exact ssa_to_linear_valid. Qed.
+Print Assumptions C10_ssa_to_linear_valid.
+
+Theorem C10_edge_path_valid_linear : forall inputs ep, valid_lin (length inputs) (edge_path_to_linear ep inputs).
+Proof. exact edge_path_valid_linear. Qed.
+Print Assumptions C10_edge_path_valid_linear.
+
+(* what remains live after ANY list of indices: the live tensors partition the leaves 0..N-1,
+   and two leaves share a live tensor exactly when they are connected by a chain of leaves in
+   which neighbours share one of the listed indices -- one tensor per connected component *)
+Theorem C10_edge_live_components : forall inputs ep,
+  Permutation (concat (map snd (sp_live (spec_run inputs ep)))) (seq 0 (length inputs)) /\
+  forall a b, a < length inputs ->
+    (same_live (sp_live (spec_run inputs ep)) a b <-> (b < length inputs /\ conn inputs ep a b)).
+Proof. exact edge_live_components. Qed.
+Print Assumptions C10_edge_live_components.
+
 (* non-vacuity: a 5-leaf tree; an order with ties; all conversions agree *)
 Example C10_nonvacuous :
   let t := Node (Node (Node (Leaf 0) (Leaf 3)) (Leaf 1)) (Node (Leaf 2) (Leaf 4)) in
@@ -178,6 +237,8 @@ Example C10_nonvacuous :
   roundtrip_lin_b 5 t [[2;4]; [0;2]; [0;2]; [0;1]] = true /\
   strictly_increasing [1; 5; 6] /\ bisect_left [1;5;6] 5 = 1 /\
   edge_path_to_ssa [1; 2; 0] [[0;1]; [1;2]; [2;0;1]] = ([[0;1;2]], false) /\
+  sp_path (spec_run [[0;1]; [1;2]; [3]; [2;0;1]] [3; 1; 0]) = [[0;1;3]] /\
+  edge_path_to_ssa [3; 1; 3] [[0;1]; [1;2]; [3]; [2;0;1]] = ([[0;1;3]], true) /\
   full_leaves 5 t /\ valid_lin 5 [[2;4]; [0;2]; [0;2]; [0;1]] /\ valid_ssa (seq 0 5) 5 [[4;2]; [3;0]; [6;1]; [7;5]].
 Proof.
   cbn zeta. repeat match goal with |- _ /\ _ => split end; try (vm_compute; reflexivity).
